@@ -15,6 +15,7 @@ import (
 	"io"
 	"strconv"
 	"strings"
+	"sync/atomic"
 	"syscall"
 	"testing"
 	"testing/synctest"
@@ -66,8 +67,16 @@ func (w *wrec) Write(p []byte) (int, error) {
 	w.n++
 	if g := w.gate; g != nil {
 		w.gate = nil
-		if err := <-g; err != nil {
-			return 0, err
+		atomic.AddInt64(&parkedAtGates, 1)
+		defer atomic.AddInt64(&parkedAtGates, -1)
+		select {
+		case err := <-g:
+			if err != nil {
+				return 0, err
+			}
+		case <-time.After(6 * time.Hour):
+			// (virtual time: only reached when the harness has left without letting the write go - the code under
+			// test took another path than the cell expected; nobody stays parked here when the bubble ends)
 		}
 	}
 	if w.failAt > 0 && w.n >= w.failAt {
@@ -160,8 +169,24 @@ func identity(e *auditevent.AuditEvent) string {
 	return string(b)
 }
 
+// parkedAtGates: writes currently held by a gate of the harness.
+var parkedAtGates int64
+
 func bubble(t *testing.T, f func()) {
-	synctest.Test(t, func(t *testing.T) { f() })
+	synctest.Test(t, func(t *testing.T) {
+		f()
+		synctest.Wait()
+		// whatever the code under test is still sleeping on when the cell is over (a back-off, a retry pause) gets
+		// the virtual time to finish: the bubble must not end with goroutines asleep
+		time.Sleep(time.Hour)
+		synctest.Wait()
+		if atomic.LoadInt64(&parkedAtGates) > 0 {
+			// a write is still held although the cell is over (the code under test took another path than the cell
+			// expected): let the gate's own time-out pass before the bubble ends
+			time.Sleep(7 * time.Hour)
+			synctest.Wait()
+		}
+	})
 }
 
 func short(s string, n int) string {
